@@ -367,8 +367,10 @@ def edge_case(draw, tier):
     if probe is None:                   # (the ranges left no room)
         desc["ctrl"], desc["nulls"] = [], 0
         probe = ref_tlv.build(desc)
-    marks = edge_lengths(ref_tlv.layout(probe[0], kind))
-    lens = sorted(marks)
+    lay = ref_tlv.layout(probe[0], kind) if probe is not None else None
+    marks = edge_lengths(lay) if lay is not None else {}
+    # (a layout without any edge inside its capacity still gets a case)
+    lens = sorted(marks) or [0]
     # (an old message also ends on an edge, is empty, or is short)
     old = draw(st.one_of(st.sampled_from(lens), st.sampled_from(lens),
                          st.sampled_from([0, 1, 10])))
